@@ -88,7 +88,7 @@ def chunking(ctx, prog, ev):
     ctx.ob("C02-D1/DEP", ok, fr.site(), "every chunk read is yielded, unmodified", func=q, key=f"C02-D1/DEP|{q}|yield")
     for y in ys:
         have, _F = R.atomic_facts_at(fr, y)
-        extra = {k for k in have if k not in {("(length) <= (offset)", False), ("bytes_to_read", True)}}
+        extra = {k for k in have if k not in {("(length) <= (offset)", False), (nm, True)}}
         ctx.ob("C02-D1/GATE", not extra, fr.site(y), "…under no condition other than `offset < length` (and a non-zero chunk size)", detail=R.fmt_missing(sorted(extra)), func=q, key=f"C02-D1/GATE|{q}|yield-always")
         adv = [x for x in fr.stmts(ast.AugAssign) if dotted(x.target) == "offset"]
         ok = len(adv) == 1 and fr.always_reaches(y, lambda n: n is adv[0].value or n is adv[0].target) is None and R.stmt_of(y)._parent is adv[0]._parent
@@ -98,7 +98,7 @@ def chunking(ctx, prog, ev):
     ctx.ob("C02-D1/GATE", ok, fr.site(), "the reader continues while offset < length (up to the last byte)", func=q, key=f"C02-D1/GATE|{q}|loop")
     brk = fr.stmts(ast.Break)
     for b in brk:
-        R.exact_gate(ctx, "C02-D1/GATE", fr, b, "offset < length and not bytes_to_read", "the only early exit is a zero-sized chunk", key=f"C02-D1/GATE|{q}|break")
+        R.exact_gate(ctx, "C02-D1/GATE", fr, b, f"offset < length and not {nm}", "the only early exit is a zero-sized chunk", key=f"C02-D1/GATE|{q}|break")
     # the conditional form (`x if c else y`) of the chunk size is equally fine only if both arms are bounded: not recognised -> floor reports it
     rb = ctx.fa(f"{D}.read_bytes")
     t = unparse(rb.node)
